@@ -7,7 +7,7 @@
    not on any stored principal and is never published as unused.  The harness monitor
    principal_update_accounted reproduces it on the real code (signature principal-save-rejected) for trees
    without the repair; repaired in /repo by commit 142a309. *)
-From SG Require Import Base.Prelude C07.Allocator C07.Principal.
+From SG Require Import Base.Prelude C07.Allocator C07.AllocatorInv C07.Principal C07.Cluster C07.ClusterInv C07.ClusterProofs C07.ClusterRollback C07.ClusterSelf.
 Open Scope N_scope.
 
 Definition principal_update_unrepaired_statement : Prop :=
@@ -25,3 +25,91 @@ Proof.
   intros H. destruct C07_principal_failed_save_leaks_refuted as (atts & Hn). exact (Hn (H atts)).
 Qed.
 Print Assumptions C07_principal_update_unrepaired_statement_refuted.
+
+(* ================= rollback of the counter document (cluster model, Cluster.v) =================
+
+   The rollback detection of the allocator compares the value an Incr returned with the node's OWN
+   window only (_reserveSequenceBatch: max < s.max + batch; nextSequenceGreaterThan: syncSeq < s.last).
+   What it cannot guarantee is refuted here; what it does guarantee is in C07_Properties.v
+   (theorems C07_rollback_...).  Every witness below is replayed on the real allocators by the corpus of
+   harness/db/verif_c07_cluster_test.go (the model and the code agree step by step).  These are
+   statements about an environment the property text does not cover (the counter going back), recorded
+   so that nobody reads more into _fixSyncSeqRollback than it delivers. *)
+
+Ltac all_nodes i :=
+  destruct i as [|i]; [|destruct i as [i|i|]; [destruct i as [i|i|] | destruct i as [i|i|] |]]; vm_compute; reflexivity.
+Ltac quiet_tac :=
+  cbn [run_quiet]; repeat split; try (intros HH; discriminate HH);
+  try (let i := fresh "i" in intros _ i _; all_nodes i).
+
+(* 1. Several nodes: a rollback that stays at or above a node's own max is invisible to that node, which
+      then hands out numbers another node handed out before.  Quiet rollback, two nodes, five calls:
+      node 0 gets 1; node 1 gets 2 and 3; the counter goes back from 3 to 1; node 0's Incr returns 2 =
+      s.max + batch, no rollback detected, node 0 hands out 2 again. *)
+Definition rollback_quiet_unique_statement : Prop :=
+  forall ops st tr, run_quiet xinit ops -> xrun xinit ops = (st, tr) -> NoDup (handed tr).
+
+Definition rollback_witness_undetected : list xop :=
+  [XNext 0 false; XNext 1 false; XNext 1 false; XRollback 1; XNext 0 false].
+
+Theorem C07_rollback_undetected_duplicate_refuted :
+  run_quiet xinit rollback_witness_undetected /\
+  handed (snd (xrun xinit rollback_witness_undetected)) = [1; 2; 3; 2] /\
+  ~ rollback_quiet_unique_statement.
+Proof.
+  split; [unfold rollback_witness_undetected; quiet_tac|]. split; [vm_compute; reflexivity|].
+  intros H.
+  assert (Q : run_quiet xinit rollback_witness_undetected) by (unfold rollback_witness_undetected; quiet_tac).
+  specialize (H rollback_witness_undetected _ _ Q (surjective_pairing _)).
+  vm_compute in H. inversion H as [|? ? _ H2]; subst. inversion H2 as [|? ? H3 _]; subst.
+  apply H3. right; left; reflexivity.
+Qed.
+Print Assumptions C07_rollback_undetected_duplicate_refuted.
+
+(* 2. One node: the counter goes back AGAIN while _fixSyncSeqRollback is between its WriteCas and its Incr
+      (not a quiet rollback): the Incr result is taken without a further test and the node hands out 1 a
+      second time.  So the hypothesis "quiet" of C07_rollback_monotone / C07_single_node_rollback_unique
+      cannot be dropped. *)
+Definition rollback_single_unique_statement : Prop :=
+  forall ops st tr, single_node 0 ops -> xrun xinit ops = (st, tr) -> NoDup (handed tr).
+
+Definition rollback_witness_during_fix : list xop :=
+  [XNext 0 false; XNext 0 false; XNext 0 false; XRollback 0; XNext 0 false; XTurn 0 true; XRollback 0; XTurn 0 true].
+
+Theorem C07_rollback_during_fix_refuted :
+  single_node 0 rollback_witness_during_fix /\
+  handed (snd (xrun xinit rollback_witness_during_fix)) = [1; 2; 3; 1] /\
+  ~ rollback_single_unique_statement.
+Proof.
+  assert (S : single_node 0 rollback_witness_during_fix) by (repeat constructor).
+  split; [exact S|]. split; [vm_compute; reflexivity|].
+  intros H. specialize (H rollback_witness_during_fix _ _ S (surjective_pairing _)).
+  vm_compute in H. inversion H as [|? ? H1 _]; subst. apply H1. right; right; left; reflexivity.
+Qed.
+Print Assumptions C07_rollback_during_fix_refuted.
+
+(* 3. Accounting after a detected rollback: inside nextSequenceGreaterThan the batch that
+      _fixSyncSeqRollback reserves with its own _incrementSequence(batch) only serves as the new value of
+      syncSeq -- s.max / s.last are not set from it -- so those numbers are neither handed out nor
+      released (in _reserveSequenceBatch the same batch becomes the node's window).  One node, quiet
+      rollback: number 1 handed out; counter back to 0; nextSequenceGreaterThan(5): counter corrected to
+      501, the fix reserves (501,502], then _nextSequence reserves (502,504] and returns 503; after Stop
+      504 is released; 502 stays unaccounted (and so do 2..501, the correction gap). *)
+Definition rollback_witness_gt_fix : list xop :=
+  [XNext 0 false; XRollback 0; XGT 0 5 false; XTurn 0 true; XTurn 0 true; XTurn 0 true; XTurn 0 true; XStop 0].
+
+Theorem C07_rollback_gt_fix_leaks_batch :
+  run_quiet xinit rollback_witness_gt_fix /\
+  let '(st, tr) := xrun xinit rollback_witness_gt_fix in
+  tr = [EHand 0 1 None; EHand 0 503 (Some 5); ERange 504 504] /\ c_counter st = 504 /\
+  n_stopped (c_nodes st 0) = true /\
+  (forall e, In e tr -> ~ covers e 502) /\ (forall i, ~ xheld st i 502).
+Proof.
+  split; [unfold rollback_witness_gt_fix; quiet_tac|].
+  vm_compute. repeat split; try reflexivity.
+  - intros e [<-|[<-|[<-|[]]]] HH; cbn in HH; try discriminate HH.
+    destruct HH as [H1 _]. apply H1. reflexivity.
+  - intros i [Ha Hb]. destruct i as [|i]; [|destruct i as [i|i|]; [destruct i as [i|i|] | destruct i as [i|i|] |]];
+      vm_compute in Ha, Hb; try discriminate; try (destruct Hb; reflexivity); try (apply Hb; reflexivity).
+Qed.
+Print Assumptions C07_rollback_gt_fix_leaks_batch.
